@@ -1,4 +1,6 @@
 """Property registry: which rule functions decide which property, with the text that goes into the evidence."""
+import traceback
+from .core import MissingAnchor
 from .rules import solver_rules as S
 from .rules import dd_rules as D
 
@@ -9,74 +11,93 @@ COMMON_ASSUME = [
     'the check decides the listed structural clauses, which are necessary conditions of the property; it does not decide the behaviour as a whole',
 ]
 
-
-def c01(ctx):
-    S.r_prune_at_pop(ctx)
-    S.r_compile_protocol(ctx)
-    S.r_enqueue_guard(ctx)
-    S.r_complete(ctx)
-
-
-def c02(ctx):
-    S.r_incumbent(ctx)
-    S.r_complete(ctx)
-
-
-def c03(ctx):
-    S.r_prune_at_pop(ctx)
-    S.r_compile_protocol(ctx)
-    S.r_enqueue_guard(ctx)
-    S.r_complete(ctx)
-    S.r_locks(ctx)
-    S.r_check_then_act(ctx)
-    S.r_pop_discard(ctx)
-    S.r_incumbent(ctx)
-    keep = ('par/', 'lock', 'no-reentrant', 'one-acquisition', 'discard', 'mark', 'workitem', 'clear', 'regions')
-    ctx.results[:] = [r for r in ctx.results if any(k in r['instance'] for k in keep) or r['verdict'] == 'VIOLATION' and r['rule'] in ('ANCHOR',)]
-
-
-def c04(ctx):
-    S.r_c04(ctx)
-    S.r_locks(ctx, rule='R04.6')
-    S.r_complete(ctx)
-    ctx.results[:] = [r for r in ctx.results if r['rule'].startswith('R04') or r['rule'] == 'ANCHOR']
-
-
-def c05(ctx):
-    S.r_abort(ctx)
+# rule function -> rule ids it can report (used to attribute a missing anchor / crash to the right properties)
+RULE_FUNCS = [
+    (S.r_prune_at_pop, ['R01.1']),
+    (S.r_compile_protocol, ['R01.2', 'R01.3']),
+    (S.r_enqueue_guard, ['R01.4']),
+    (lambda ctx: S.r_enqueue_guard(ctx, rule='R19.2', need_min=True), ['R19.2']),
+    (lambda ctx: S.r_locks(ctx, rule='R04.6'), ['R04.6']),
+    (S.r_complete, ['R01.5', 'R02.3', 'R04.5']),
+    (S.r_incumbent, ['R02.1', 'R02.2']),
+    (S.r_set_primal, ['R14.1']),
+    (S.r_locks, ['R03.a']),
+    (S.r_check_then_act, ['R03.b']),
+    (S.r_pop_discard, ['R03.pop', 'R09.7', 'R09.8']),
+    (S.r_c04, ['R04.1', 'R04.2', 'R04.3', 'R04.4', 'R04.7', 'R04.8']),
+    (S.r_abort, ['R05.2', 'R05.3', 'R05.4']),
+    (S.r_c19, ['R19.1', 'R19.6']),
+    (S.r_must_explore, ['R09.6']),
+    (S.r_open_by_layer, ['R09.8']),
+    (D.r_append, ['R02.4', 'R06.2']),
+    (D.r_branch_on, ['R12.a', 'R12.b']),
+    (D.r_compile, ['R12.c', 'R12.d', 'R05.1', 'R01.6', 'R13.a', 'R06.3', 'R08.4']),
+    (D.r_squash, ['R01.7', 'R07.1', 'R13.b', 'R12.e', 'R08.3', 'R08.2']),
+    (D.r_restrict, ['R13.b', 'R07.4']),
+    (D.r_relax, ['R06.1', 'R12.e', 'R12.f', 'R13.b', 'R07.4']),
+    (D.r_thresholds, ['R09.1', 'R09.2', 'R09.5']),
+    (D.r_filters, ['R09.3', 'R09.4', 'R09.5', 'R10.6', 'R13.a']),
+    (D.r_cutset, ['R08.1', 'R08.2', 'R08.3', 'R08.4', 'R08.5', 'R09.2']),
+    (D.r_best_nodes, ['R02.5', 'R02.6']),
+    (D.r_reset, ['R06.3', 'R02.5']),
+    (D.r_flags, ['R06.4']),
+    (D.r_pooled_layers, ['R15.1', 'R15.2', 'R15.3']),
+]
 
 
-def c14(ctx):
-    S.r_set_primal(ctx)
-    S.r_prune_at_pop(ctx)
-    S.r_enqueue_guard(ctx)
-    S.r_incumbent(ctx)
-    ctx.results[:] = [r for r in ctx.results if r['rule'] in ('R14.1', 'R01.1', 'R01.4', 'ANCHOR') or 'improve-only' in r['instance']]
+def run_rules(ctx, prefixes, keep=None):
+    """run every rule function that can report one of `prefixes`; keep the results whose rule id matches"""
+    pref = tuple(prefixes)
+    for (fn, ids) in RULE_FUNCS:
+        if not any(i.startswith(pref) for i in ids):
+            continue
+        n0 = len(ctx.results)
+        try:
+            fn(ctx)
+        except MissingAnchor as e:
+            for i in ids:
+                ctx.bad(i, 'ANCHOR/' + str(e)[:80], None, '-', 'anchor missing: %s' % e)
+        except Exception as e:
+            tb = traceback.format_exc()
+            import sys
+            sys.stderr.write(tb)
+            for i in ids:
+                ctx.bad(i, 'ENGINE/crash', None, '-', 'analysis crashed in %s: %r' % (getattr(fn, '__name__', 'rule'), e))
+    ctx.results[:] = [r for r in ctx.results if r['rule'].startswith(pref) and (keep is None or keep(r))]
+    # de-duplicate (a rule function may be run for several prefixes)
+    seen = set()
+    out = []
+    for r in ctx.results:
+        k = (r['rule'], r['instance'], r['fn'], r['verdict'])
+        if k not in seen:
+            seen.add(k)
+            out.append(r)
+    ctx.results[:] = out
 
 
-def c19(ctx):
-    S.r_c19(ctx)
-    S.r_incumbent(ctx)
-    S.r_set_primal(ctx)
-    ctx.results[:] = [r for r in ctx.results if r['rule'].startswith('R19') or 'improve-only' in r['instance'] or '/strict' in r['instance'] or r['rule'] == 'ANCHOR']
+def mk(prefixes, keep=None):
+    return lambda ctx: run_rules(ctx, prefixes, keep)
 
 
-def cdd(ctx):
-    D.r_append(ctx)
-    D.r_branch_on(ctx)
-    D.r_compile(ctx)
-    D.r_squash(ctx)
-    D.r_restrict(ctx)
-    D.r_relax(ctx)
+def _c03_keep(r):
+    if r['rule'].startswith(('R03', 'R02.2')):
+        return True
+    return r['instance'].startswith('par/')
 
 
 PROPS = {
-    'CDD': dict(fn=cdd, explanation='dev: all diagram rules'),
-    'C01': dict(fn=c01, explanation='static rules over rustc MIR (edge-cut reachability, must-pass-through, origin terms): prune polarity at the pop/enqueue sites, restricted->relaxed->enqueue protocol, Complete only on an empty fringe'),
-    'C02': dict(fn=c02, explanation='static rules over rustc MIR: incumbent value and solution written together from the exact accessors of one diagram, improve-only guard, reported value = best_sol.map(|_| best_lb)'),
-    'C03': dict(fn=c03, explanation='static rules over rustc MIR on ParallelSolver: C01 clauses, lock regions (no re-entrant acquisition, one acquisition per check-then-act), pop-time discard polarity, cache mark guarded'),
-    'C04': dict(fn=c04, explanation='checked premises P1-P8 of the deadlock-freedom argument (DESIGN.md C04) on the MIR of parallel.rs: pairing of ongoing, release on every worker exit, notify under lock, wait guards (path-consistent), completion guard, vector length coupled to nb_threads'),
-    'C05': dict(fn=c05, explanation='static rules over rustc MIR: Err => abort_search on all paths, abort_proof set, completion unreachable after abort, bound stored at abort covers own node, in-flight nodes and fringe top'),
-    'C14': dict(fn=c14, explanation='static rules over rustc MIR: set_primal strictness, both fields written under one guard, no prune site discards ub > best_lb'),
-    'C19': dict(fn=c19, explanation='static rules over rustc MIR: best_ub := popped ub, child bound = min(parent, child), incumbent improve-only, Complete sets best_ub := best_lb'),
+    'C01': dict(fn=mk(['R01.', 'R07.1']), explanation='prune polarity at the pop / enqueue / rough-bound sites, restricted->relaxed->enqueue protocol, Complete only on an empty fringe, exactness withdrawn on every path that squashes a layer'),
+    'C02': dict(fn=mk(['R02.']), explanation='incumbent value and solution written together from the exact accessors of one diagram (one lock region in the parallel solver), improve-only guard, reported value = best_sol.map(|_| best_lb); longest-path max-update with witness edge; value and path read from one node; exact-best selection table'),
+    'C03': dict(fn=mk(['R01.1', 'R01.2', 'R01.3', 'R01.4', 'R01.5', 'R02.1', 'R02.2', 'R03.'], _c03_keep), explanation='C01 clauses instantiated on ParallelSolver, lock regions (no re-entrant acquisition, one acquisition per check-then-act), pop-time discard polarity, cache mark guarded by must_explore'),
+    'C04': dict(fn=mk(['R04.']), explanation='checked premises P1-P8 of the deadlock-freedom argument (DESIGN.md C04): pairing of ongoing, release on every worker exit, wake-up not before the decrement, wait guards (path-consistent enumeration), completion guard, no re-entrant lock, vector length coupled to nb_threads, spawn range'),
+    'C05': dict(fn=mk(['R05.', 'R19.1']), explanation='cutoff => Err without finalisation; Err => abort_search on all paths; abort_proof set; completion unreachable after abort; bound stored at abort covers own node, in-flight nodes and fringe top; sequential best_ub written at pop only'),
+    'C06': dict(fn=mk(['R06.', 'R02.4', 'R02.6', 'R01.6', 'R01.7']), explanation='arc redirection with relaxed cost, relaxed/deleted flags, exactness propagation, complete reset between compilations (field table from the ADT), flag bits and tables, rough-bound pruning direction, exactness withdrawn when squashing'),
+    'C07': dict(fn=mk(['R07.', 'R01.7', 'R02.4', 'R02.5', 'R13.a', 'R13.b']), explanation='restricted never merges, exact never squashes, truncation withdraws exactness and flags dropped nodes, squash order, value and path from one node through the best-edge chain, expanded vector is the squashed one'),
+    'C08': dict(fn=mk(['R08.', 'R01.4', 'R15.3', 'R12.e'], lambda r: r['rule'] != 'R12.e' or 'relax-' in r['instance'] or 'merge' in r['instance']), explanation='sub-problem fields from one exact, marked node; frontier/LEL admission; progress (first layer never squashed; root test for diagrams that keep nodes in the pool); ub term set; local-bound max-update; push unless ub <= best_lb'),
+    'C09': dict(fn=mk(['R09.']), explanation='who writes thresholds and when; explored flag; filter below the root only; filter polarity and theta inheritance; closed list of theta writes with their guards; cache entry fields; mark at pop; must_explore before compiling'),
+    'C12': dict(fn=mk(['R12.', 'R15.2']), explanation='provenance (origin terms) of every argument of transition, transition_cost, relax, merge, for_each_in_domain, next_variable; who may call _branch_on; depth counter; merged slice has at least two members'),
+    'C13': dict(fn=mk(['R13.']), explanation='squash executed on every expanded layer vector; symbolic length <= max_width at every exit of _restrict/_relax; width guards'),
+    'C14': dict(fn=mk(['R14.', 'R01.1', 'R01.4', 'R01.6', 'R09.4', 'R02.1'], lambda r: r['rule'] != 'R02.1' or 'improve-only' in r['instance']), explanation='set_primal strictness table, both fields under one guard; no prune site (pop, enqueue, rough bound, cache filter) discards a node with ub > best_lb; incumbent replaced only on improvement'),
+    'C15': dict(fn=mk(['R15.', 'R08.3', 'R12.d', 'R12.f']), explanation='Pooled: un-impacted nodes are neither expanded nor removed from the pool; depth assigned when a node leaves the pool and at finalisation; a layer is recorded only when non-empty; progress rule (root never handed out) shared with C08'),
+    'C19': dict(fn=mk(['R19.', 'R02.1', 'R14.1'], lambda r: r['rule'].startswith('R19') or 'improve-only' in r['instance'] or '/strict' in r['instance']), explanation='best_ub := popped ub, child bound = min(parent, child), incumbent improve-only, Complete sets best_ub := best_lb'),
 }
